@@ -49,7 +49,7 @@ theorem round_down_bits {F p eb} (lay : Layout F p eb) (fp : ExtendedFloat80) (h
 /-- fields of a finite pattern `k·2^(p−1) + q` (`q` carries the hidden bit when `k > 0` or `q ≥ 2^(p−1)`) -/
 theorem decode_kq {F p eb} (lay : Layout F p eb) (hden : F.C.denormalExponent = 1 - F.C.exponentBias)
     (k q : Nat) (h1 : 0 < k → 2 ^ (p - 1) ≤ q) (h2 : q < 2 * 2 ^ (p - 1))
-    (hfin : k * 2 ^ (p - 1) + q < F.fmt.infBits) :
+    (hfin : k * 2 ^ (p - 1) + q ≤ F.fmt.infBits) :
     floatMantissa F (k * 2 ^ (p - 1) + q) = q ∧
     floatExponent F (k * 2 ^ (p - 1) + q) = (k : Int) + 1 - F.C.exponentBias := by
   have hfp : F.fmt.p = p := by rw [lay.fmt]
@@ -73,9 +73,12 @@ theorem decode_kq {F p eb} (lay : Layout F p eb) (hden : F.C.denormalExponent = 
       rw [e1, Nat.add_comm, Nat.add_mul_div_right _ _ hTpos, Nat.div_eq_of_lt hqT]; omega
     have hmod : (k * T + q) % T = q - T := by
       rw [e1, Nat.add_comm, Nat.add_mul_mod_self_right, Nat.mod_eq_of_lt hqT]
-    have hk1 : k + 1 < 2 ^ eb - 1 := by
+    have hk1 : k + 1 < 2 ^ eb := by
       apply Classical.byContradiction; intro hc
-      have : (2 ^ eb - 1) * T ≤ (k + 1) * T := Nat.mul_le_mul_right T (by omega)
+      have : 2 ^ eb * T ≤ (k + 1) * T := Nat.mul_le_mul_right T (by omega)
+      have e2 : (2 ^ eb - 1) * T + T = 2 ^ eb * T := by
+        have := Nat.two_pow_pos eb
+        rw [← Nat.succ_mul]; congr 1; omega
       rw [e1] at hfin; omega
     rw [hdiv, hmod, Nat.mod_eq_of_lt (by omega)]
     have hne : ¬ (k + 1 = 0) := by omega
@@ -160,7 +163,7 @@ theorem roundNE_of_bracket {f : Fmt} (hf : WF f) {num den : Nat} (hd : 0 < den) 
 
 theorem bhOf_kq {F p eb} (lay : Layout F p eb) (hden : F.C.denormalExponent = 1 - F.C.exponentBias)
     (k q : Nat) (h1 : 0 < k → 2 ^ (p - 1) ≤ q) (h2 : q < 2 * 2 ^ (p - 1))
-    (hfin : k * 2 ^ (p - 1) + q < F.fmt.infBits) :
+    (hfin : k * 2 ^ (p - 1) + q ≤ F.fmt.infBits) :
     bhOf F (k * 2 ^ (p - 1) + q) = ⟨2 * q + 1, (k : Int) - F.C.exponentBias⟩ := by
   obtain ⟨dm, de⟩ := decode_kq lay hden k q h1 h2 hfin
   unfold bhOf bOf
@@ -178,15 +181,22 @@ theorem bhOf_kq {F p eb} (lay : Layout F p eb) (hden : F.C.denormalExponent = 1 
     rw [h64]; omega
   · omega
 
-/-- the computation of `negative_digit_comp`, with the rounding decision abstracted: whatever tells that `roundNE` of the
-value is `b` plus the increment the exact comparison with `b + h` dictates (`hfinal`) makes the call correct. -/
-theorem negativeDigitComp_core {F p eb} (lay : Layout F p eb)
+/-- the computation of `negative_digit_comp` with both roundings abstracted: `hbits` — the estimate rounds down to
+`b = k·2^(p−1) + q`; `hround` — the final `round` re-derives `q` and adds what the callback says; `hfinal` — `roundNE` of
+the value is `b` plus the increment the exact comparison with `b + h` dictates. Instantiated for an estimate above the
+underflow cut (`negativeDigitComp_core`) and below it (`negativeDigitComp_tiny`, `b = 0`). -/
+theorem negativeDigitComp_abstract {F p eb} (lay : Layout F p eb)
     (hden : F.C.denormalExponent = 1 - F.C.exponentBias) {E : Env} (hdbg : E.debug = false)
     {radix h : Nat} (hr : radix = 2 * h) (Th : BigPowOk E h) (T2 : BigPowOk E 2)
-    {M : Nat} (hM : M ≠ 0) (fp : ExtendedFloat80) (hm1 : 2 ^ 63 ≤ fp.mant) (hm2 : fp.mant < 2 ^ 64)
-    (hp2 : -fp.exp + 1 ≤ 64) (hfe : fp.exp < 2 ^ 20) {e : Int} (he : e < 0) (he' : -(2 ^ 28 : Int) < e)
-    (k q : Nat) (hk : k = (fp.exp + 64 - p - 1).toNat) (hq : q = fp.mant / 2 ^ shiftOf p fp.exp)
-    (hfin : k * 2 ^ (p - 1) + q < F.fmt.infBits)
+    {M : Nat} (hM : M ≠ 0) (fp : ExtendedFloat80) {e : Int} (he : e < 0) (he' : -(2 ^ 28 : Int) < e)
+    (k q : Nat) (hkb : (k : Int) < 2 ^ 20 + 64)
+    (hbits : extendedToFloat F (round F fp roundDown) = k * 2 ^ (p - 1) + q)
+    (h1 : 0 < k → 2 ^ (p - 1) ≤ q) (qb : q < 2 * 2 ^ (p - 1))
+    (hround : ∀ ord : Ordering,
+      0 ≤ (round F fp (fun f s => roundNearestTieEven f s (fun isOdd _ _ => ordUp ord isOdd))).exp ∧
+      extendedToFloat F (round F fp (fun f s => roundNearestTieEven f s (fun isOdd _ _ => ordUp ord isOdd))) =
+        encode F.fmt k (q + if ordUp ord (decide (q % 2 = 1)) then 1 else 0))
+    (hfin : k * 2 ^ (p - 1) + q ≤ F.fmt.infBits)
     (hfinal : roundNE F.fmt M (radix ^ (-e).toNat) = encode F.fmt k
       (q + if ordUp (compare (2 * (M * 2 ^ L F.fmt)) ((2 * q + 1) * 2 ^ k * radix ^ (-e).toNat)) (decide (q % 2 = 1))
         then 1 else 0))
@@ -196,15 +206,6 @@ theorem negativeDigitComp_core {F p eb} (lay : Layout F p eb)
       extendedToFloat F r = roundNE F.fmt M (radix ^ (-e).toNat) := by
   have hp := lay.hp; have hp64 := lay.hp64; have heb := lay.heb
   have hfp : F.fmt.p = p := by rw [lay.fmt]
-  obtain ⟨qa, qb, qc, qd, qe⟩ := quot_bounds hp (by omega) hm1 hm2 fp.exp hp2
-  rw [← hk, ← hq] at qa
-  rw [← hq] at qb
-  rw [← hk] at qe
-  have h1 : 0 < k → 2 ^ (p - 1) ≤ q := fun h0 => (qa h0).2.1
-  have hbits : extendedToFloat F (round F fp roundDown) = k * 2 ^ (p - 1) + q := by
-    rw [round_down_bits lay fp hm1 hm2 hp2, ← hk, ← hq]
-    unfold encode
-    rw [hfp, if_neg (by omega)]
   have hbh := bhOf_kq lay hden k q h1 qb hfin
   have hB := lay.bias
   have heb15 := lay.heb15
@@ -226,7 +227,6 @@ theorem negativeDigitComp_core {F p eb} (lay : Layout F p eb)
   have hjn : (-e).toNat = j := by omega
   rw [hjn] at hfinal hfitT ⊢
   generalize hbe : (k : Int) - F.C.exponentBias - e = be at *
-  have hkb : (k : Int) < 2 ^ 20 + 64 := by omega
   have hrad2 : radix % 2 = 0 := by omega
   have hhalf : radix / 2 = h := by omega
   have hhpos : 0 < h := by
@@ -258,15 +258,11 @@ theorem negativeDigitComp_core {F p eb} (lay : Layout F p eb)
   have hmid : (2 * q + 1) * h ^ j * 2 ^ (k + j) = (2 * q + 1) * 2 ^ k * radix ^ j := by
     rw [hr, Nat.mul_pow, Nat.pow_add]; ring
   rw [hmid] at hcmp
-  obtain ⟨r1, r2⟩ := round_bits lay fp.mant fp.exp
-    (fun isOdd _ _ => ordUp (compare (M * 2 ^ (-be).toNat) ((2 * q + 1) * h ^ j * 2 ^ be.toNat)) isOdd) hm1 hm2 hp2
-  rw [← hk, ← hq] at r2
-  have hup : upOf fp.mant (shiftOf p fp.exp)
-      (fun isOdd _ _ => ordUp (compare (M * 2 ^ (-be).toNat) ((2 * q + 1) * h ^ j * 2 ^ be.toNat)) isOdd) =
-      if ordUp (compare (2 * (M * 2 ^ L F.fmt)) ((2 * q + 1) * 2 ^ k * radix ^ j)) (decide (q % 2 = 1)) then 1 else 0 := by
-    unfold upOf
-    rw [← hq, hcmp]
-  rw [hup, ← hfinal] at r2
+  obtain ⟨r1, r2⟩ := hround (compare (M * 2 ^ (-be).toNat) ((2 * q + 1) * h ^ j * 2 ^ be.toNat))
+  replace r2 : extendedToFloat F (round F fp (fun f s => roundNearestTieEven f s (fun isOdd _ _ =>
+      ordUp (compare (M * 2 ^ (-be).toNat) ((2 * q + 1) * h ^ j * 2 ^ be.toNat)) isOdd))) =
+      roundNE F.fmt M (radix ^ j) := by
+    rw [r2, hcmp]; exact hfinal.symm
   by_cases hpos : be > 0
   · rw [if_pos hpos, asU32_ofNat (by omega) (by omega),
       bigintPow_eq T2 (Nat.mul_ne_zero (by omega) (Nat.ne_of_gt (Nat.pow_pos hhpos))) be.toNat (by omega) hfitT]
@@ -288,6 +284,44 @@ theorem negativeDigitComp_core {F p eb} (lay : Layout F p eb)
       have e1 : (-be).toNat = 0 := by omega
       rw [e0, e1, Nat.pow_zero, Nat.mul_one, Nat.mul_one] at r1 r2
       exact ⟨_, rfl, r1, r2⟩
+
+/-- the estimate above the underflow cut: whatever tells that `roundNE` of the value is `b` plus the increment the exact
+comparison with `b + h` dictates (`hfinal`) makes the call correct. -/
+theorem negativeDigitComp_core {F p eb} (lay : Layout F p eb)
+    (hden : F.C.denormalExponent = 1 - F.C.exponentBias) {E : Env} (hdbg : E.debug = false)
+    {radix h : Nat} (hr : radix = 2 * h) (Th : BigPowOk E h) (T2 : BigPowOk E 2)
+    {M : Nat} (hM : M ≠ 0) (fp : ExtendedFloat80) (hm1 : 2 ^ 63 ≤ fp.mant) (hm2 : fp.mant < 2 ^ 64)
+    (hp2 : -fp.exp + 1 ≤ 64) (hfe : fp.exp < 2 ^ 20) {e : Int} (he : e < 0) (he' : -(2 ^ 28 : Int) < e)
+    (k q : Nat) (hk : k = (fp.exp + 64 - p - 1).toNat) (hq : q = fp.mant / 2 ^ shiftOf p fp.exp)
+    (hfin : k * 2 ^ (p - 1) + q < F.fmt.infBits)
+    (hfinal : roundNE F.fmt M (radix ^ (-e).toNat) = encode F.fmt k
+      (q + if ordUp (compare (2 * (M * 2 ^ L F.fmt)) ((2 * q + 1) * 2 ^ k * radix ^ (-e).toNat)) (decide (q % 2 = 1))
+        then 1 else 0))
+    (hfitT : (2 * q + 1) * h ^ (-e).toNat * 2 ^ ((k : Int) - F.C.exponentBias - e).toNat < 2 ^ (64 * E.L.bigintLimbs))
+    (hfitR : M * 2 ^ (-((k : Int) - F.C.exponentBias - e)).toNat < 2 ^ (64 * E.L.bigintLimbs)) :
+    ∃ r, negativeDigitComp E F radix M fp e = some r ∧ 0 ≤ r.exp ∧
+      extendedToFloat F r = roundNE F.fmt M (radix ^ (-e).toNat) := by
+  have hp := lay.hp; have hp64 := lay.hp64; have heb := lay.heb
+  have hfp : F.fmt.p = p := by rw [lay.fmt]
+  have h20 : (2 : Int) ^ 20 = 1048576 := by norm_num
+  obtain ⟨qa, qb, qc, qd, qe⟩ := quot_bounds hp (by omega) hm1 hm2 fp.exp hp2
+  rw [← hk, ← hq] at qa
+  rw [← hq] at qb
+  rw [← hk] at qe
+  have h1 : 0 < k → 2 ^ (p - 1) ≤ q := fun h0 => (qa h0).2.1
+  have hbits : extendedToFloat F (round F fp roundDown) = k * 2 ^ (p - 1) + q := by
+    rw [round_down_bits lay fp hm1 hm2 hp2, ← hk, ← hq]
+    unfold encode
+    rw [hfp, if_neg (by omega)]
+  apply negativeDigitComp_abstract lay hden hdbg hr Th T2 hM fp he he' k q (by omega) hbits h1 qb ?_ (Nat.le_of_lt hfin) hfinal
+    hfitT hfitR
+  intro ord
+  obtain ⟨r1, r2⟩ := round_bits lay fp.mant fp.exp (fun isOdd _ _ => ordUp ord isOdd) hm1 hm2 hp2
+  rw [← hk, ← hq] at r2
+  refine ⟨r1, ?_⟩
+  rw [r2]
+  unfold upOf
+  rw [← hq]
 
 /-- **`negative_digit_comp_correct`** on the model (even radix `radix = 2·h`, the radices with a digit limit).
 `fp`: normalised significand, exponent not below the underflow cut; `b = k·2^(p−1) + q` its round-down, finite;
@@ -414,5 +448,155 @@ theorem negativeDigitComp_correct_weak {F p eb} (lay : Layout F p eb)
     (roundNE_of_weak_bracket lay.wf (Nat.pow_pos (by omega) : 0 < radix ^ (-e).toNat) k q
       (by rw [hfp]; exact fun h0 => (qa h0).2.1) (by rw [hfp]; exact qb) (by rw [hfp]; exact hfin)
       (by rw [hfp]; exact hlo) (by rw [hfp]; exact hhi)) hfitT hfitR
+
+/-! ## the estimate below the underflow cut (`−exp + 1 > 64`): `b = 0`, the answer is `0` or the least subnormal -/
+
+/-- `shared::round` of an estimate more than 64 bits below the least subnormal's exponent: only the callback's
+increment survives -/
+theorem round_tiny {F p eb} (lay : Layout F p eb) (mant : Nat) (e : Int) (cb : Bool → Bool → Bool → Bool)
+    (hm2 : mant < 2 ^ 64) (he : -e + 1 > 64) :
+    round F ⟨mant, e⟩ (fun f s => roundNearestTieEven f s cb) = ⟨upOf mant 64 cb, 0⟩ := by
+  have hp := lay.hp; have hp64 := lay.hp64; have heb := lay.heb
+  unfold round
+  rw [lay.ms, lay.hidden]
+  have hden : -e ≥ 64 - ((p - 1 : Nat) : Int) - 1 := by omega
+  rw [if_pos hden]
+  have hmin : (min (-e + 1) 64).toNat = 64 := by
+    rw [Int.min_eq_right (by omega)]; rfl
+  simp only [hmin, rnte_eq mant e 64 cb hm2 (by decide) (Nat.le_refl _)]
+  have hdiv : mant / 2 ^ 64 = 0 := Nat.div_eq_of_lt hm2
+  rw [hdiv, Nat.zero_add]
+  have hu := upOf_le mant 64 cb
+  have hT : 2 ≤ 2 ^ (p - 1) := by
+    calc 2 = 2 ^ 1 := rfl
+      _ ≤ 2 ^ (p - 1) := Nat.pow_le_pow_right (by decide) (by omega)
+  have : ¬ (((upOf mant 64 cb : Nat) : Int) ≥ ((2 ^ (p - 1) : Nat) : Int)) := by omega
+  rw [if_neg this]
+
+theorem ext_small {F p eb} (lay : Layout F p eb) (u : Nat) (hu : u ≤ 1) : extendedToFloat F ⟨u, 0⟩ = u := by
+  have hp := lay.hp; have hp64 := lay.hp64; have heb := lay.heb
+  have hbits : F.C.bits.toNat = p + eb := by rw [lay.bits]; rfl
+  have hT : 2 ≤ 2 ^ (p - 1) := by
+    calc 2 = 2 ^ 1 := rfl
+      _ ≤ 2 ^ (p - 1) := Nat.pow_le_pow_right (by decide) (by omega)
+  have hbig : 2 ^ (p - 1) ≤ 2 ^ (p + eb) := Nat.pow_le_pow_right (by decide) (by omega)
+  have := ext_of_fields F (p - 1) (p + eb) lay.msNat hbits u 0 (by omega) (by omega) hp64
+  simpa using this
+
+/-- **`negative_digit_comp` below the underflow cut**: the estimate rounds down to `+0`, `b + h` is half the least
+subnormal, and the comparison decides between `0` and the least subnormal (`k = q = 0` in `negativeDigitComp_abstract`) -/
+theorem negativeDigitComp_tiny {F p eb} (lay : Layout F p eb)
+    (hden : F.C.denormalExponent = 1 - F.C.exponentBias) {E : Env} (hdbg : E.debug = false)
+    {radix h : Nat} (hr : radix = 2 * h) (Th : BigPowOk E h) (T2 : BigPowOk E 2)
+    {M : Nat} (hM : M ≠ 0) (fp : ExtendedFloat80) (hm2 : fp.mant < 2 ^ 64)
+    (hp2 : -fp.exp + 1 > 64) {e : Int} (he : e < 0) (he' : -(2 ^ 28 : Int) < e)
+    (hfinal : roundNE F.fmt M (radix ^ (-e).toNat) = encode F.fmt 0
+      (0 + if ordUp (compare (2 * (M * 2 ^ L F.fmt)) ((2 * 0 + 1) * 2 ^ 0 * radix ^ (-e).toNat)) (decide (0 % 2 = 1))
+        then 1 else 0))
+    (hfitT : (2 * 0 + 1) * h ^ (-e).toNat * 2 ^ (((0 : Nat) : Int) - F.C.exponentBias - e).toNat <
+      2 ^ (64 * E.L.bigintLimbs))
+    (hfitR : M * 2 ^ (-(((0 : Nat) : Int) - F.C.exponentBias - e)).toNat < 2 ^ (64 * E.L.bigintLimbs)) :
+    ∃ r, negativeDigitComp E F radix M fp e = some r ∧ 0 ≤ r.exp ∧
+      extendedToFloat F r = roundNE F.fmt M (radix ^ (-e).toNat) := by
+  have hp := lay.hp; have hp64 := lay.hp64; have heb := lay.heb
+  have hfp : F.fmt.p = p := by rw [lay.fmt]
+  have hinfpos : 0 < F.fmt.infBits := infBits_pos lay.wf
+  have h20 : (2 : Int) ^ 20 = 1048576 := by norm_num
+  have hbits : extendedToFloat F (round F fp roundDown) = 0 * 2 ^ (p - 1) + 0 := by
+    rw [round_roundDown F fp hm2, round_tiny lay fp.mant fp.exp _ hm2 hp2, upOf_false]
+    simpa using LexVerif.Proof.BinaryCorrect.ext_zero lay
+  apply negativeDigitComp_abstract lay hden hdbg hr Th T2 hM fp he he' 0 0 (by omega) hbits (by omega)
+    (by have := Nat.two_pow_pos (p - 1); omega) ?_ (by simpa using hinfpos) hfinal hfitT hfitR
+  intro ord
+  rw [round_tiny lay fp.mant fp.exp _ hm2 hp2]
+  have hu : upOf fp.mant 64 (fun isOdd _ _ => ordUp ord isOdd) = if ordUp ord (decide (0 % 2 = 1)) then 1 else 0 := by
+    unfold upOf
+    rw [Nat.div_eq_of_lt hm2]
+  refine ⟨Int.le_refl _, ?_⟩
+  rw [hu]
+  have hinf2 : 2 ≤ F.fmt.infBits := by
+    rw [infBits_eq, hfp]
+    have hM3 := M_ge lay.wf
+    have hT : 2 ≤ 2 ^ (p - 1) := by
+      calc 2 = 2 ^ 1 := rfl
+        _ ≤ 2 ^ (p - 1) := Nat.pow_le_pow_right (by decide) (by omega)
+    calc 2 ≤ 2 ^ (p - 1) := hT
+      _ = 1 * 2 ^ (p - 1) := (Nat.one_mul _).symm
+      _ ≤ F.fmt.maxExpField * 2 ^ (p - 1) := Nat.mul_le_mul_right _ (by omega)
+  have hule : (if ordUp ord (decide (0 % 2 = 1)) then 1 else 0) ≤ 1 := by split <;> omega
+  generalize (if ordUp ord (decide (0 % 2 = 1)) then 1 else 0) = u at hule ⊢
+  rw [ext_small lay u hule]
+  unfold encode
+  rw [hfp, if_neg (by omega)]
+  omega
+
+/-- weak-bracket form below the underflow cut: `0 ≤ roundNE x ≤ 1` as bit patterns -/
+theorem negativeDigitComp_tiny_weak {F p eb} (lay : Layout F p eb)
+    (hden : F.C.denormalExponent = 1 - F.C.exponentBias) {E : Env} (hdbg : E.debug = false)
+    {radix h : Nat} (hr : radix = 2 * h) (Th : BigPowOk E h) (T2 : BigPowOk E 2)
+    {M : Nat} (hM : M ≠ 0) (fp : ExtendedFloat80) (hm2 : fp.mant < 2 ^ 64)
+    (hp2 : -fp.exp + 1 > 64) {e : Int} (he : e < 0) (he' : -(2 ^ 28 : Int) < e)
+    (hhi : roundNE F.fmt M (radix ^ (-e).toNat) ≤ 1)
+    (hfitT : (2 * 0 + 1) * h ^ (-e).toNat * 2 ^ (((0 : Nat) : Int) - F.C.exponentBias - e).toNat <
+      2 ^ (64 * E.L.bigintLimbs))
+    (hfitR : M * 2 ^ (-(((0 : Nat) : Int) - F.C.exponentBias - e)).toNat < 2 ^ (64 * E.L.bigintLimbs)) :
+    ∃ r, negativeDigitComp E F radix M fp e = some r ∧ 0 ≤ r.exp ∧
+      extendedToFloat F r = roundNE F.fmt M (radix ^ (-e).toNat) := by
+  have hhpos : 0 < h := by
+    have := Th.split
+    apply Nat.pos_of_ne_zero; intro h0
+    rw [h0] at this
+    split at this <;> simp_all
+  have hfp : F.fmt.p = p := by rw [lay.fmt]
+  have hinfpos : 0 < F.fmt.infBits := infBits_pos lay.wf
+  exact negativeDigitComp_tiny lay hden hdbg hr Th T2 hM fp hm2 hp2 he he'
+    (roundNE_of_weak_bracket lay.wf (Nat.pow_pos (by omega) : 0 < radix ^ (-e).toNat) 0 0 (by omega)
+      (by have := Nat.two_pow_pos (F.fmt.p - 1); omega) (by simpa using hinfpos) (by simp) (by simpa using hhi))
+    hfitT hfitR
+
+/-! ## the estimate rounds down to infinity -/
+
+/-- **`b = +∞`**: an estimate of a value of at least `2^(emax+1)` that `lemire` did not answer itself. `bh(+∞)` is the
+hidden bit with the all-ones exponent field, `(2·2^(p−1) + 1)·2^(2^eb − 2 − bias)`; whatever the comparison says, the
+final `round` overflows again: the result is `+∞ = roundNE` of the value. -/
+theorem negativeDigitComp_inf {F p eb} (lay : Layout F p eb)
+    (hden : F.C.denormalExponent = 1 - F.C.exponentBias) {E : Env} (hdbg : E.debug = false)
+    {radix h : Nat} (hr : radix = 2 * h) (Th : BigPowOk E h) (T2 : BigPowOk E 2)
+    {M : Nat} (hM : M ≠ 0) (fp : ExtendedFloat80) (hm1 : 2 ^ 63 ≤ fp.mant) (hm2 : fp.mant < 2 ^ 64)
+    (hp2 : -fp.exp + 1 ≤ 64) {e : Int} (he : e < 0) (he' : -(2 ^ 28 : Int) < e)
+    (hov : F.fmt.infBits ≤ (fp.exp + 64 - p - 1).toNat * 2 ^ (p - 1) + fp.mant / 2 ^ shiftOf p fp.exp)
+    (hval : roundNE F.fmt M (radix ^ (-e).toNat) = F.fmt.infBits)
+    (hfitT : (2 * 2 ^ (p - 1) + 1) * h ^ (-e).toNat * 2 ^ (((2 ^ eb - 2 : Nat) : Int) - F.C.exponentBias - e).toNat <
+      2 ^ (64 * E.L.bigintLimbs))
+    (hfitR : M * 2 ^ (-(((2 ^ eb - 2 : Nat) : Int) - F.C.exponentBias - e)).toNat < 2 ^ (64 * E.L.bigintLimbs)) :
+    ∃ r, negativeDigitComp E F radix M fp e = some r ∧ 0 ≤ r.exp ∧
+      extendedToFloat F r = roundNE F.fmt M (radix ^ (-e).toNat) := by
+  have hp := lay.hp; have hp64 := lay.hp64; have heb := lay.heb; have heb15 := lay.heb15
+  have hfp : F.fmt.p = p := by rw [lay.fmt]
+  have hinf : F.fmt.infBits = (2 ^ eb - 1) * 2 ^ (p - 1) := by rw [lay.fmt]; rfl
+  have hT := Nat.two_pow_pos (p - 1)
+  have heb4 : 4 ≤ 2 ^ eb := by
+    calc 4 = 2 ^ 2 := rfl
+      _ ≤ 2 ^ eb := Nat.pow_le_pow_right (by decide) heb
+  have heb15' : 2 ^ eb ≤ 2 ^ 15 := Nat.pow_le_pow_right (by decide) heb15
+  have h15 : (2 : Nat) ^ 15 = 32768 := by norm_num
+  have h20 : (2 : Int) ^ 20 = 1048576 := by norm_num
+  have hkq : (2 ^ eb - 2) * 2 ^ (p - 1) + 2 ^ (p - 1) = F.fmt.infBits := by
+    rw [hinf, ← Nat.succ_mul]; congr 1; omega
+  have henc : ∀ x, encode F.fmt (2 ^ eb - 2) (2 ^ (p - 1) + x) = F.fmt.infBits := by
+    intro x
+    unfold encode
+    rw [hfp, if_pos (by omega)]
+  apply negativeDigitComp_abstract lay hden hdbg hr Th T2 hM fp he he' (2 ^ eb - 2) (2 ^ (p - 1)) (by omega) ?_
+    (fun _ => Nat.le_refl _) (by omega) ?_ (Nat.le_of_eq hkq) (by rw [hval, henc]) hfitT hfitR
+  · rw [round_down_bits lay fp hm1 hm2 hp2]
+    unfold encode
+    rw [hfp, if_pos hov, hkq]
+  · intro ord
+    obtain ⟨r1, r2⟩ := round_bits lay fp.mant fp.exp (fun isOdd _ _ => ordUp ord isOdd) hm1 hm2 hp2
+    refine ⟨r1, ?_⟩
+    rw [r2, henc]
+    unfold encode
+    rw [hfp, if_pos (by omega)]
 
 end LexVerif.Proof.Slow
